@@ -211,7 +211,7 @@ Section M.
 
   Theorem key_function_of_position s : key_inv s -> r_key s = position_key (r_board s) (r_side s) (r_castling s) (r_ep s).
   Proof.
-    intros [[_ [_ [_ [_ [_ [_ [Hbk Hbw]]]]]]] [He [Hc Hs]]]. apply hashkey_ext; cbn [position_key k_piece k_pawn k_ep k_castling k_color]; assumption.
+    intros [[_ [_ [_ [_ [_ [_ [Hbk [Hbw _]]]]]]]] [He [Hc Hs]]]. apply hashkey_ext; cbn [position_key k_piece k_pawn k_ep k_castling k_color]; assumption.
   Qed.
 
   Corollary same_position_same_key s1 s2 : key_inv s1 -> key_inv s2 ->
